@@ -251,16 +251,23 @@ def run(ctx, only=None):
             cases = select_cases(drv, rng, ctx.tier)
             if only:
                 cases = [c for c in cases if c[0] in only]
-            nvar = E.N_VARIANTS if ctx.tier == "thorough" else 1
+            thorough = ctx.tier == "thorough"
+            off = int(rng.integers(E.N_VARIANTS))
             for i, (name, cfg) in enumerate(cases):
-                for v in range(nvar):
-                    variant = v if ctx.tier == "thorough" else int(rng.integers(E.N_VARIANTS))
-                    # byte-wise mode always; read-only mode on every case in thorough, on every 2nd in quick
-                    modes = (False, True) if (ctx.tier == "thorough" or i % 2 == 0) else (False,)
-                    for ro in modes:
-                        run_case(ctx, drv, name, cfg, rng, variant, ro, stats)
-                        ctx.count(cfg_key(name, cfg) if E.nontrivial(name, cfg) else None,
-                                  hist=dict(entry=name, mode="ro" if ro else "bytes", variant=variant))
+                if thorough:
+                    # every configuration in both observation modes; all layout realisations for the
+                    # entry points with at most 2000 configurations, a rotating one for the large ones
+                    small = E.CFG_COUNT[name] <= 2000
+                    runs = [((i + off) % E.N_VARIANTS, False), ((i + off) % E.N_VARIANTS, True)]
+                    if small:
+                        runs += [((i + off + 1) % E.N_VARIANTS, False), ((i + off + 2) % E.N_VARIANTS, True)]
+                else:
+                    v = int(rng.integers(E.N_VARIANTS))
+                    runs = [(v, False)] + ([(v, True)] if i % 2 == 0 else [])
+                for variant, ro in runs:
+                    run_case(ctx, drv, name, cfg, rng, variant, ro, stats)
+                    ctx.count(cfg_key(name, cfg) if E.nontrivial(name, cfg) else None,
+                              hist=dict(entry=name, mode="ro" if ro else "bytes", variant=variant))
                 if i % 997 == 0:
                     ctx.sample(dict(entry=name, cfg=cfg, options=E.describe(name, cfg)))
             ctx.notes.append("sweep: %d implementation runs in %.1fs" % (stats["n"], time.time() - t0))
@@ -346,9 +353,10 @@ DIGIT_NAMES = {
     "normalizer": ["class", "method", "data", "nan", "out_of_range"],
     "generator": ["generator", "pos", "nugget"],
 }
-QUICK_BUDGET = {"vario_estimate": 700, "krige_call": 500, "srf_call": 300, "krige_condition": 200, "condsrf_call": 200,
+QUICK_BUDGET = {"vario_estimate": 3000, "krige_call": 500, "srf_call": 300, "krige_condition": 200, "condsrf_call": 200,
                 "field_call": 300, "fit_variogram": 60, "normalizer": 120}
 N_VARIANTS = 3
+CFG_COUNT = {k: int(np.prod(v)) for k, v in DIMS.items()}
 
 A_POS, A_FIELD, A_A, A_B, A_CPOS, A_CVAL, A_CEXT, A_CERR, A_KPOS, A_KMAT, A_KVAR, A_MEANF = range(12)
 C_FIELD, C_RAWF, C_RAWK, C_X, C_Y, C_Z = range(20, 26)
@@ -1038,7 +1046,7 @@ def history_probe(ctx, rng):
             cpv, cvv = cond_values(rng, 8)
             caller.update(cond_pos=cpv, cond_val=cvv)
             obj = gs.CondSRF(gs.krige.Krige(the_model(nugget=0.1), cpv, cvv, **mtn_kwargs(mtn)), seed=3, mode_no=20)
-        held = []       # (description, array, bytes at the time it was handed out)
+        held = [("caller's " + k, v, v.tobytes()) for k, v in caller.items()]   # (description, array, bytes when handed out)
         ops = []
 
         def hand_out(desc, arrs):
@@ -1076,13 +1084,10 @@ def history_probe(ctx, rng):
                 else:
                     desc = "read stored fields"
                     hand_out(desc, [obj[n] for n in have])
-            except ValueError as e:
-                if "read-only" in str(e):
-                    raise
-                desc = (desc or "op") + " -> ValueError"
+            except (ValueError, TypeError) as e:   # operation rejected by GSTools (e.g. transform needing a constant mean)
+                desc = (desc or "op") + " -> " + type(e).__name__
             ops.append(desc)
             bad = [(d, i) for i, (d, a, b) in enumerate(held) if a.tobytes() != b]
-            cbad = [k for k, v in caller.items() if False]
             if bad:
                 ctx.violation("probe: history", "an array handed out by %r was altered by the later operation %r" % (bad[0][0], desc),
                               dict(kind=["SRF", "Krige", "CondSRF"][kind], mtn=mtn, ops=ops, seed=ctx.seed),
